@@ -223,6 +223,18 @@ def _row_items(rng, width, token, o):
     if len(text) < n - 1:
       if rng.random() < o["p_mid"]:
         items.append(("mid", rng.randrange(8), rng.random() < 0.3))
+        if rng.random() < 0.3 and len(text) < n - 5:
+          # mid-row code, special characters only, then a mid-row code that switches italics / underline off again
+          if items[-1][1] != 7 and not items[-1][2]:
+            items[-1] = ("mid", 7, rng.random() < 0.5)
+          text.append(" ")
+          for _ in range(rng.choice([1, 2])):
+            i = rng.choice([0, 1, 2, 3, 4, 5, 6, 7, 8, 10, 11, 12, 13, 14, 15])
+            if items[-1] == ("sp", i):
+              i = (i + 1) % 16 if i not in (8, 15) else 10
+            items.append(("sp", i))
+            text.append(T.SPECIAL[i])
+          items.append(("mid", 0, False))
       else:
         items.append(("c", 0x20))
       text.append(" ")
